@@ -39,6 +39,9 @@ def run(ctx: Context) -> None:
     ctx.rule(c08.r4_validation)
     ctx.rule(c08.r2_no_state)
     ctx.rule(c08.r3_weighted_sum)
+    # how members are combined and filters applied is BaseLoss.compute_loss's business: a loss that overrides it changes the documented definition
+    ctx.rule(c08.r5_siblings)
+    ctx.rule(c08.r1b_user_results)
     ctx.rule(dtype_rule)
 
 
